@@ -1,4 +1,4 @@
-import Pw.C10.Bridge
+import Pw.C10.Valid
 
 /-! # C10: non-vacuity examples, kernel-checked instances (tests), the defect of the unchanged code
 
@@ -35,6 +35,12 @@ theorem exEnc_inj : ∀ a ∈ (convS exG).names, ∀ b ∈ (convS exG).names, ex
     collide with generated names -/
 example : Struct exG (convS exG) ∧ SepPreserved (exG.encode exEnc) ((convS exG).encode exEnc) :=
   C10_full exG_wf exG_acyclic exG_noSelfLoop exEnc exEnc_inj
+
+/-- non-vacuity of `sepPreserved_of_valid` / `mSeparated_of_valid` (hypotheses: a graph accepted by
+    the validator) -/
+example : SepPreserved (exG.encode exEnc) ((convS exG).encode exEnc) :=
+  sepPreserved_of_valid exG_wf exG_biDistinct exG_noSelfLoop (conv_closed uname uname_inj exG_wf)
+    (C10_struct exG_wf exG_acyclic) (C10_exact exG_wf exG_biDistinct) exEnc exEnc_inj
 
 /-- non-vacuity of `C10_exact` -/
 example : Exact exG (convS exG) := C10_exact exG_wf exG_biDistinct
